@@ -20,6 +20,10 @@ deriving Repr, DecidableEq, Inhabited
 
 def MAXSIZE : Int := 9223372036854775807
 
+/-- key component standing for a `None` offset (e.g. a freshly created DocumentAnnotation): `None == None`
+    lets tuples of `None`s be ordered by `id`, while `None < int` raises `TypeError` (see `Cas.add`) -/
+def NONE_KEY : Int := -9223372036854775808
+
 /-- Python tuple order on keys `(b, e, oid)` -/
 def keyLt (x y : Entry) : Bool :=
   x.b < y.b || (x.b == y.b && (x.e < y.e || (x.e == y.e && x.oid < y.oid)))
